@@ -24,7 +24,7 @@ the order of `buildProxyHandlerChainFunc` / `dispatcher.ServeHTTP`:
 | `flowcontrol.TryAcquire` / deferred `Release` | `upstreamLimiter.GetOrDefault`, max-in-flight counter, token bucket | `LocalLimiter.acquire/release` (C05), `TokenBucket.Bucket.tryAcquire` (C06) |
 | `endpointPicker.Pop` | ready list, round-robin cursor | `Endpoints.pop` (C03, C14) |
 | decision and answer | the filters' early returns, `TerminateWithError` | `Forward.serve : Scenario → Outcome` (C04) |
-| the forwarded request | reverse proxy + transports | `Forward.forwardRequest` (C04), `Identity.serve` (C02) |
+| the forwarded request | reverse proxy + transports | `Forward.forwardRequest` (C04), `Identity.serveWith` (C02; `Env.authz` is the authorizer the impersonation filter consults) |
 
 The model threads state: a 429 leaves the cursors alone (`TryAcquire` comes before `Pop`), a request without a matching
 policy never touches a limiter, an admitted request holds its slot until it finishes (`finish`), a token bucket ages with
@@ -376,7 +376,7 @@ def arrive (env : Env) (s : State) (r : Request) : State × Outcome :=
           let s1 := stateAfterDispatch s x
           match x.pop.1 with
           | .picked n g =>
-            match Identity.serve x.b.cl.cfg.token r.lines (some x.b.requestor) (env.authz (some x.b.p) x.b.requestor) false with
+            match Identity.serveWith x.b.cl.cfg.token r.lines (some x.b.requestor) (env.authz (some x.b.p) x.b.requestor) false with
             | .forwarded recv _ =>
               (s1, .forwarded { cluster := x.b.p, policy := x.pk.policy, schema := schemaNameOf x.b.cl x.pk, endpoint := (n, g),
                                 handle := x.acq.handle, ctxUser := x.b.ctxUser, up := endToEnd up,
